@@ -37,15 +37,19 @@ META = {
         "`all(top-level child is <img> / <div class=admonition> and its extension is on)` gate; the pass-through constructor puts "
         "its text parameter unchanged into exactly one nodes.raw(format='html'); the gate pairs each extension flag with its own "
         "tag, and each run_directive call is restricted to the matching tag; both html handlers hand token.content to "
-        "html_to_nodes and attach all returned nodes. R2: the finite language of the GFM filter regex (enumerated from the "
+        "html_to_nodes and attach all returned nodes; every class test (`'admonition' in ...`, title detection) is a word test on the "
+        "white-space split class list, not a substring test on the attribute text; the fragment is tokenized by a parser object built "
+        "(or reset) for that fragment, because html.parser keeps buffered text and its CDATA mode between feed() calls. R2: the finite language of the GFM filter regex (enumerated from the "
         "re._parser tree) is exactly '<' ['/'] tag for the nine tags of the GFM 'Disallowed Raw HTML' extension, it is "
         "case-insensitive, the tag-name terminator look-ahead covers all HTML tag-name terminators and no name character, the "
         "replacement removes the '<', no count limit, the substitution is conditional on gfm_only alone and dominates every use "
         "of the text and every return. R3: the attribute whitelists that feed a directive's option block are subsets of that "
         "docutils directive's option_spec (read from the docutils sources via its directive registry). R4: an HTML attribute "
         "value (or a non-whitelisted attribute name) reaches the option block of run_directive's content only through a "
-        "quoting sanitiser (json.dumps, or a package function returning json.dumps of its parameter - optionally only when the "
-        "value does not fully match a regex whose language consists of plain scalars the option tokenizer returns unchanged)."
+        "quoting sanitiser that carries every value over: json.dumps(x, ensure_ascii=False) with U+0085/U+2028/U+2029 re-escaped "
+        "(JSON leaves them raw, str.splitlines and the tokenizer break lines there; the ensure_ascii default mangles non-BMP "
+        "characters into surrogate escapes), directly or in a package function that may return the value unquoted only under a "
+        "fullmatch with a regex whose language consists of plain scalars the option tokenizer returns unchanged."
     ),
     "not_decided": "node-for-node equality with the directive spelling for all attribute values / bodies; behaviour of the docutils option converters; what the HTML parser accepts as a top-level element",
     "trusted_base": [
@@ -111,14 +115,31 @@ class Ctx:
         self.attrs_name = names[0]
 
     # -- calls of renderer.run_directive inside html_to_nodes ------------------
-    def sinks(self) -> list[ast.Call]:
+    def sinks(self) -> list[tuple[FunctionInfo, ast.Call]]:
+        """``<renderer>.run_directive(...)`` calls in html_to_nodes and in the helpers of its module
+        (receiver: a parameter of the function the call sits in)."""
+        out = []
+        for fn in self.mod.functions.values():
+            if fn.is_lambda:
+                continue
+            for n in fn.local_nodes():
+                if isinstance(n, ast.Call) and isinstance(n.func, ast.Attribute) and n.func.attr == self.run_directive.name:
+                    root = n.func.value
+                    if isinstance(root, ast.Name) and root.id in fn.params and (fn is not self.fi or root.id == self.p_renderer):
+                        out.append((fn, n))
+        out.sort(key=lambda fc: (fc[1].lineno, fc[1].col_offset))
+        return out
+
+    def h2n_stmts_of(self, fn: FunctionInfo, call: ast.Call) -> list[ast.stmt]:
+        """CFG statements of html_to_nodes at which the sink executes: the call itself, or the call sites of the helper it sits in."""
+        if fn is self.fi:
+            return [self.cfg.stmt_of(call)]
         out = []
         for n in self.fi.local_nodes():
-            if isinstance(n, ast.Call) and isinstance(n.func, ast.Attribute) and n.func.attr == self.run_directive.name:
-                root = n.func.value
-                if isinstance(root, ast.Name) and root.id == self.p_renderer:
-                    out.append(n)
-        out.sort(key=lambda c: (c.lineno, c.col_offset))
+            if isinstance(n, ast.Call) and isinstance(n.func, ast.Name) and n.func.id == fn.name and fn.parent_func is None and fn.cls is None:
+                out.append(self.cfg.stmt_of(n))
+        if not out:
+            raise Unsupported(f"helper {fn.qualname} calls run_directive but html_to_nodes does not call it directly")
         return out
 
     def sink_name(self, call: ast.Call) -> str:
@@ -418,8 +439,10 @@ def r1_pass_through(corpus: Corpus, rep: Report, tier: str):
                     gate, quant = n, c
     if gate is None:
         raise Unsupported("no `all(<convertible> for child in root)` gate found in html_to_nodes")
-    if not (isinstance(gate.test, ast.UnaryOp) and isinstance(gate.test.op, ast.Not) and gate.test.operand is quant and gate.body and gate.body[-1] in pt_returns and not gate.orelse):
-        raise Unsupported(f"gate is not `if not all(...): return <pass-through>`: {short(gate.test, 60)}")
+    gtests = gate.test.values if isinstance(gate.test, ast.BoolOp) and isinstance(gate.test.op, ast.Or) else [gate.test]
+    # `if not all(...)` or `if <other reason to pass through> or not all(...)`: on the false edge all(...) holds
+    if not (any(isinstance(t, ast.UnaryOp) and isinstance(t.op, ast.Not) and t.operand is quant for t in gtests) and gate.body and gate.body[-1] in pt_returns and not gate.orelse):
+        raise Unsupported(f"gate is not `if [... or] not all(...): return <pass-through>`: {short(gate.test, 60)}")
     gen = quant.args[0]
     if len(gen.generators) != 1 or gen.generators[0].ifs or not isinstance(gen.generators[0].target, ast.Name):
         raise Unsupported("gate generator filters or nests its iteration")
@@ -443,8 +466,8 @@ def r1_pass_through(corpus: Corpus, rep: Report, tier: str):
                 ext = e_
             elif nt is not None and tag is None:
                 tag = nt[1]
-            elif isinstance(c, ast.Compare) and len(c.ops) == 1 and isinstance(c.ops[0], ast.In) and isinstance(c.left, ast.Constant) and unparse(c.comparators[0]) == f"{var}.{cx.attrs_name}.classes" and cls is None:
-                cls = c.left.value
+            elif isinstance(c, ast.Compare) and len(c.ops) == 1 and isinstance(c.ops[0], ast.In) and isinstance(c.left, ast.Constant) and isinstance(c.left.value, str) and cls is None and _class_expr_kind(cx, c.comparators[0], var) is not None:
+                cls = c.left.value  # whether it is a word test is judged below (class tests)
             else:
                 raise Unsupported(f"gate conjunct not understood: {short(c, 60)}")
         if tag is None:
@@ -472,36 +495,54 @@ def r1_pass_through(corpus: Corpus, rep: Report, tier: str):
             rep.violation("C17.R1", k, m.site(r), f"`{short(r, 70)}` returns without the raw node on a path that has not established that every top-level element is convertible: the HTML is dropped")
     # (d) dispatch: each directive only for its own tag, and iteration over the gated root
     sinks = cx.sinks()
-    for call in sinks:
+    for sfn, call in sinks:
         name = cx.sink_name(call)
-        st = cfg.stmt_of(call)
-        k = f"{fi.fq}|dispatch|{name}"
-        site = m.site(call)
         want = [v for v in CONVERTIBLE.values() if v[2] == name]
+        site = m.site(call)
         if not want:
-            rep.violation("C17.R1", k, site, f"HTML is converted to the {name!r} directive, which is not one of the recognised conversions")
-            continue
-        tag = want[0][0]
-        if not cfg.dominates(fedge, st):
-            rep.violation("C17.R1", k, site, f"run_directive({name!r}) is reachable without passing the convertibility gate")
-            continue
-        loop = cfg.loops.get(st)
-        while loop is not None and not (isinstance(loop, ast.For) and unparse(loop.iter) == root_expr):
-            loop = cfg.loops.get(loop)
-        if loop is None or not isinstance(loop.target, ast.Name):
-            raise Unsupported(f"run_directive({name!r}) is not inside a loop over the gated elements `{root_expr}`")
-        lv = loop.target.id
-        gs = [( _name_test(t), pol) for t, pol in cfg.guards(st)]
-        gs = [(nt, pol) for nt, pol in gs if nt is not None and nt[0] == lv]
-        others = {v[0] for v in CONVERTIBLE.values()} - {tag}
-        pos = any(pol and nt[1] == tag for nt, pol in gs)
-        neg = others and all(any((not pol) and nt[1] == o for nt, pol in gs) for o in others)
-        if pos or neg:
-            rep.ok("C17.R1", k, site, f"only for <{tag}> children")
-        elif any(pol and nt[1] != tag for nt, pol in gs) or any((not pol) and nt[1] == tag for nt, pol in gs):
-            rep.violation("C17.R1", k, site, f"run_directive({name!r}) runs for a tag other than <{tag}>")
-        else:
-            raise Unsupported(f"cannot see which tag run_directive({name!r}) is restricted to")
+              rep.violation("C17.R1", f"{fi.fq}|dispatch|{name}", site, f"HTML is converted to the {name!r} directive, which is not one of the recognised conversions")
+              continue
+        for st in cx.h2n_stmts_of(sfn, call):
+            k = f"{fi.fq}|dispatch|{name}"
+            tag = want[0][0]
+            if not cfg.dominates(fedge, st):
+                rep.violation("C17.R1", k, site, f"run_directive({name!r}) is reachable without passing the convertibility gate")
+                continue
+            loop = cfg.loops.get(st)
+            while loop is not None and not (isinstance(loop, ast.For) and unparse(loop.iter) == root_expr):
+                loop = cfg.loops.get(loop)
+            if loop is None or not isinstance(loop.target, ast.Name):
+                raise Unsupported(f"run_directive({name!r}) is not inside a loop over the gated elements `{root_expr}`")
+            lv = loop.target.id
+            gs = [( _name_test(t), pol) for t, pol in cfg.guards(st)]
+            gs = [(nt, pol) for nt, pol in gs if nt is not None and nt[0] == lv]
+            others = {v[0] for v in CONVERTIBLE.values()} - {tag}
+            pos = any(pol and nt[1] == tag for nt, pol in gs)
+            neg = others and all(any((not pol) and nt[1] == o for nt, pol in gs) for o in others)
+            if pos or neg:
+                rep.ok("C17.R1", k, site, f"only for <{tag}> children")
+            elif any(pol and nt[1] != tag for nt, pol in gs) or any((not pol) and nt[1] == tag for nt, pol in gs):
+                rep.violation("C17.R1", k, site, f"run_directive({name!r}) runs for a tag other than <{tag}>")
+            else:
+                raise Unsupported(f"cannot see which tag run_directive({name!r}) is restricted to")
+    # (d2) every class test is a word test on the class list, not a substring test on the attribute text
+    n_cls = 0
+    for fn_ in [f_ for f_ in cx.mod.functions.values() if not f_.is_lambda]:
+        for c in fn_.local_nodes():
+            if isinstance(c, ast.Compare) and len(c.ops) == 1 and isinstance(c.ops[0], (ast.In, ast.NotIn)) and isinstance(c.left, ast.Constant) and isinstance(c.left.value, str):
+                kind = _class_expr_kind(cx, c.comparators[0], None)
+                if kind is None:
+                    continue
+                n_cls += 1
+                k = f"{fn_.fq}|class test|{short(c, 70)}"
+                if kind[0] == "tokens":
+                    rep.ok("C17.R1", k, m.site(c), kind[1])
+                else:
+                    rep.violation("C17.R1", k, m.site(c), f"`{short(c, 60)}` is a substring test on {kind[1]}: class=\"{c.left.value}-x\" / \"my{c.left.value}\" count as class {c.left.value!r}, so HTML that is not the recognised form is converted (or its first child taken as the title) instead of passing through")
+    if n_cls < 1:
+        raise Unsupported("no class membership test found in the html_to_nodes module")
+    # (d3) the fragment is tokenized by a parser that carries no state from earlier fragments
+    _fresh_tokenizer(cx, rep)
     # (e) callers
     dotted_h2n = f"{cx.mod.name}.{fi.qualname}"
     callers = []
@@ -550,6 +591,114 @@ def r1_pass_through(corpus: Corpus, rep: Report, tier: str):
         else:
             rep.violation("C17.R1", k, meth.site(), f"{h} does not hand its token to html_to_nodes (directly or via the block handler): the HTML does not reach the output as the raw node")
     rep.expect_min("C17.R1", 16, "5 pass-through returns, 2 conversion returns, 3 constructor facts, 3 gate facts, 2 dispatches, 4 caller facts on the pinned tree")
+
+
+def _class_expr_kind(cx: Ctx, e: ast.expr, var: str | None):
+    """Is ``e`` derived from an element's class attribute?  ("tokens", how) - a list of class names;
+    ("text", how) - the attribute text (``in`` is then a substring test); None - not a class expression."""
+    an = cx.attrs_name
+
+    def is_attrs(x):
+        return isinstance(x, ast.Attribute) and x.attr == an and (var is None or (isinstance(x.value, ast.Name) and x.value.id == var))
+
+    # X.attrs.classes -> what the property returns
+    if isinstance(e, ast.Attribute) and is_attrs(e.value):
+        ci = cx.corpus.cls("parsers.parse_html:Attribute")
+        prop = ci.methods.get(e.attr)
+        if prop is None or "property" not in prop.decorators():
+            return None
+        rets = [n for n in prop.local_nodes() if isinstance(n, ast.Return) and n.value is not None]
+        if len(rets) != 1:
+            raise Unsupported(f"Attribute.{e.attr} has {len(rets)} returns")
+        v = rets[0].value
+        inner = _self_class_text(v.func.value) if isinstance(v, ast.Call) and isinstance(v.func, ast.Attribute) else None
+        if isinstance(v, ast.Call) and isinstance(v.func, ast.Attribute) and v.func.attr == "split" and not v.args and not v.keywords and inner:
+            return ("tokens", f"Attribute.{e.attr} = self['class'].split()")
+        if _self_class_text(v):
+            return ("text", f"Attribute.{e.attr}, which returns the attribute text unsplit")
+        if isinstance(v, ast.Call) and isinstance(v.func, ast.Attribute) and v.func.attr == "split" and inner:
+            return ("text", f"Attribute.{e.attr}, which splits on {short(v.args[0], 20) if v.args else '?'} rather than on white space")
+        if e.attr == "classes":
+            raise Unsupported(f"Attribute.classes returns `{short(v, 50)}`")
+        return None
+    # X.attrs["class"] / X.attrs.get("class")
+    if isinstance(e, ast.Subscript) and is_attrs(e.value) and isinstance(e.slice, ast.Constant) and e.slice.value == "class":
+        return ("text", f"the class attribute text `{short(e, 40)}`")
+    if isinstance(e, ast.Call) and isinstance(e.func, ast.Attribute) and e.func.attr == "get" and is_attrs(e.func.value) and e.args and isinstance(e.args[0], ast.Constant) and e.args[0].value == "class":
+        return ("text", f"the class attribute text `{short(e, 40)}`")
+    # <text>.split()
+    if isinstance(e, ast.Call) and isinstance(e.func, ast.Attribute) and e.func.attr == "split" and not e.args and not e.keywords:
+        inner = _class_expr_kind(cx, e.func.value, var)
+        if inner is not None and inner[0] == "text":
+            return ("tokens", f"{short(e, 40)}")
+    if isinstance(e, ast.Call) and isinstance(e.func, ast.Name) and e.func.id in ("set", "list", "tuple", "frozenset") and len(e.args) == 1:
+        inner = _class_expr_kind(cx, e.args[0], var)
+        if inner is not None and inner[0] == "tokens":
+            return inner
+    if isinstance(e, ast.Call) and isinstance(e.func, ast.Name) and e.func.id == "str" and len(e.args) == 1:
+        inner = _class_expr_kind(cx, e.args[0], var)
+        if inner is not None:
+            return ("text", f"str() of {inner[1]}")
+    return None
+
+
+def _self_class_text(v) -> bool:
+    """``self["class"]`` / ``self.get("class", ...)``"""
+    if isinstance(v, ast.Subscript) and dotted(v.value) == "self" and isinstance(v.slice, ast.Constant) and v.slice.value == "class":
+        return True
+    return isinstance(v, ast.Call) and isinstance(v.func, ast.Attribute) and v.func.attr == "get" and dotted(v.func.value) == "self" and bool(v.args) and isinstance(v.args[0], ast.Constant) and v.args[0].value == "class"
+
+
+def _fresh_tokenizer(cx: Ctx, rep: Report) -> None:
+    """The tree html_to_nodes converts comes from a parser object built for this fragment (or reset before it is fed):
+    html.parser.HTMLParser keeps ``rawdata`` and its CDATA mode (after ``<script>``/``<style>``) between feed() calls."""
+    fi, m = cx.fi, cx.mod
+    toks = [c for c in fi.local_nodes() if isinstance(c, ast.Call) and dotted(c.func) and any(isinstance(x, ast.Name) and x.id == cx.p_text for a in c.args for x in ast.walk(a)) and cx.corpus.find_function(m.resolve(dotted(c.func))) is not None and cx.corpus.find_function(m.resolve(dotted(c.func))).module.name.endswith("parse_html")]
+    if len(toks) != 1:
+        raise Unsupported(f"expected one call of the HTML tokenizer on the text in html_to_nodes, found {len(toks)}")
+    tk = cx.corpus.find_function(m.resolve(dotted(toks[0].func)))
+    rep.saw_function(tk.fq)
+    tm = tk.module
+    feeds = [c for c in tk.local_nodes() if isinstance(c, ast.Call) and isinstance(c.func, ast.Attribute) and c.func.attr == "feed"]
+    if len(feeds) != 1:
+        raise Unsupported(f"{tk.qualname}: expected one .feed(...) call, found {len(feeds)}")
+    feed = feeds[0]
+    recv = feed.func.value
+    k = f"{tk.fq}|parser state is per fragment"
+    site = tm.site(feed)
+
+    def is_ctor(v) -> bool:
+        return isinstance(v, ast.Call) and bool(dotted(v.func)) and cx.corpus.find_class(tm.resolve(dotted(v.func))) is not None
+
+    cfg = get_cfg(tk)
+    fst = cfg.stmt_of(feed)
+    if is_ctor(recv):
+        rep.ok("C17.R1", k, site, "parser constructed in the call")
+        return
+    resets = [c for c in tk.local_nodes() if isinstance(c, ast.Call) and isinstance(c.func, ast.Attribute) and c.func.attr == "reset" and unparse(c.func.value) == unparse(recv)]
+    if any(cfg.dominates(cfg.stmt_of(r), fst) and cfg.stmt_of(r) is not fst for r in resets):
+        rep.ok("C17.R1", k, site, "parser reset() before every feed")
+        return
+    if isinstance(recv, ast.Name):
+        stores = [x for x in tk.local_nodes() if isinstance(x, ast.Name) and x.id == recv.id and isinstance(x.ctx, ast.Store)]
+        vals = [parent(x).value for x in stores if isinstance(parent(x), (ast.Assign, ast.AnnAssign)) and getattr(parent(x), "value", None) is not None]
+        if stores and len(vals) == len(stores) and all(is_ctor(v) for v in vals):
+            # every definition is a fresh construction; it must happen on every call (not under a cache-miss test)
+            if all(not cfg.guards(cfg.stmt_of(x)) for x in stores):
+                rep.ok("C17.R1", k, site, f"{recv.id} = {short(vals[0], 50)} in the call")
+                return
+        if not stores and (recv.id in tm.const_nodes or recv.id not in tk.params):
+            rep.violation("C17.R1", k, site, f"`{recv.id}` is one parser object shared by all calls: an earlier fragment that leaves html.parser in CDATA mode or with buffered text (an inline `<script>`, an unfinished tag) makes later <img>/<div class=admonition> fragments tokenize to nothing, so they are not converted")
+            return
+        globs = {nm for n in tk.local_nodes() if isinstance(n, ast.Global) for nm in n.names} | set(tm.const_nodes)
+        if any(isinstance(v, ast.Name) and v.id in globs and v.id not in tk.params for v in vals) or any(isinstance(v, (ast.Subscript, ast.Attribute)) or (isinstance(v, ast.Call) and isinstance(v.func, ast.Attribute) and v.func.attr in ("get", "setdefault", "pop")) for v in vals) or any(cfg.guards(cfg.stmt_of(x)) for x in stores):
+            rep.violation("C17.R1", k, site, f"`{recv.id}` can be a parser object kept from an earlier call (`{short(vals[0], 40) if vals else '?'}`) and is fed without reset(): html.parser state (CDATA mode after `<script>`, buffered text) leaks into this fragment, so a later <img>/<div class=admonition> is not converted")
+            return
+        raise Unsupported(f"{tk.qualname}: cannot see where `{recv.id}` comes from")
+    if isinstance(recv, (ast.Subscript, ast.Attribute)) or (isinstance(recv, ast.Call) and not is_ctor(recv)):
+        rep.violation("C17.R1", k, site, f"`{short(recv, 40)}` is a stored parser object fed without reset(): html.parser state (CDATA mode after `<script>`, buffered text) leaks from earlier fragments, so a later <img>/<div class=admonition> is not converted")
+        return
+    raise Unsupported(f"{tk.qualname}: receiver of feed() not understood: {short(recv, 40)}")
 
 
 def _attached_whole(f: FunctionInfo, call: ast.Call) -> bool:
@@ -899,10 +1048,11 @@ def vjoin(*vs: V) -> V:
 
 
 class Taint:
-    def __init__(self, cx: Ctx):
+    def __init__(self, cx: Ctx, fi: FunctionInfo | None = None):
         self.cx = cx
-        self.fi = cx.fi
-        self.mod = cx.mod
+        self.fi = fi or cx.fi
+        self.mod = self.fi.module
+        self.cfg = get_cfg(self.fi)
         self._names: dict = {}
         self._busy: set = set()
 
@@ -923,7 +1073,7 @@ class Taint:
             return env[n.id]
         if n.id in self.fi.params and not any(isinstance(x, ast.Name) and x.id == n.id and isinstance(x.ctx, ast.Store) for x in self.fi.local_nodes()):
             return V()
-        cfg = self.cx.cfg
+        cfg = self.cfg
         stores = [x for x in self.fi.local_nodes() if isinstance(x, ast.Name) and x.id == n.id and isinstance(x.ctx, ast.Store) and not isinstance(parent(x), ast.comprehension)]
         if not stores:
             if n.id in self.fi.params or n.id in self.mod.const_nodes or n.id in self.mod.functions or n.id in self.mod.classes or n.id in self.mod.imports or n.id in _BUILTINS:
@@ -1125,9 +1275,14 @@ class Taint:
         args = [a.value if isinstance(a, ast.Starred) else a for a in e.args] + [k.value for k in e.keywords]
         d = dotted(f)
         # sanitisers
-        if self.is_quoting_call(e):
+        sv = self.sanitiser_verdict(e)
+        if sv is not None:
             inner = vjoin(*(self.ev(a, env) for a in args[:1]))
-            return V(QUOTED if inner.kind != CLEAN else CLEAN, wl=inner.wl)
+            if inner.kind == CLEAN:
+                return V(wl=inner.wl)
+            if sv[0] == "quoted":
+                return V(QUOTED, wl=inner.wl)
+            return V(RAW, leaves=[(e, "attribute value (lossy quoting)|" + sv[1])], wl=inner.wl)
         if isinstance(f, ast.Attribute):
             recv = self.ev(f.value, env)
             if recv.is_map:
@@ -1189,66 +1344,159 @@ class Taint:
         raise Unsupported(f"cannot decide whether `{short(e, 60)}` keeps, quotes or removes the attribute string")
 
     # -- sanitiser recognition -------------------------------------------------------
-    def is_quoting_call(self, e: ast.Call, depth: int = 0) -> bool:
-        """json.dumps(x), or a package function of one value whose every result is either a JSON-quoted
-        rendering of its parameter or the parameter itself under a fullmatch with a plain-scalar-safe regex."""
+    def sanitiser_verdict(self, e: ast.Call):
+        """None: not a sanitiser shape (caller decides);  ("quoted", ""): the result is a double-quoted scalar that the
+        option tokenizer reads back as exactly the argument;  ("lossy", why): recognised, but some values do not survive."""
         d = dotted(e.func)
         if not d:
-            return False
+            return None
         r = self.mod.resolve(d)
         if r == "json.dumps":
-            return True
+            if not e.args:
+                return None
+            return _json_quote_verdict(e, self.mod, None)
         fn = self.cx.corpus.find_function(r)
         if fn is None or fn.is_lambda or not fn.params:
-            return False
-        body = [st for st in fn.node.body if not (isinstance(st, ast.Expr) and isinstance(st.value, ast.Constant))]
-        par = fn.params[0]
-        if any(isinstance(x, ast.Name) and x.id == par and isinstance(x.ctx, ast.Store) for x in fn.local_nodes()):
-            return False
+            return None
+        return self.cx.corpus.cache(("c17-sanitiser", fn.fq), lambda: _helper_verdict(fn))
 
-        def quoted(v) -> bool:
-            while isinstance(v, ast.Call) and isinstance(v.func, ast.Attribute) and v.func.attr == "replace":
-                cs = [a.value for a in v.args if isinstance(a, ast.Constant) and isinstance(a.value, str)]
-                if len(cs) != 2 or len(v.args) != 2 or '"' in cs[0] or "\\" in cs[0] or not cs[0]:
-                    return False
-                v = v.func.value
-            return isinstance(v, ast.Call) and bool(dotted(v.func)) and fn.module.resolve(dotted(v.func)) == "json.dumps" and bool(v.args) and isinstance(v.args[0], ast.Name) and v.args[0].id == par
+    def is_quoting_call(self, e: ast.Call) -> bool:
+        v = self.sanitiser_verdict(e)
+        return v is not None and v[0] == "quoted"
 
-        def safe_test(t) -> bool:
-            if not isinstance(t, ast.Call) or not isinstance(t.func, ast.Attribute) or t.func.attr != "fullmatch":
-                return False
-            recv = t.func.value
-            pat_call = None
-            if isinstance(recv, ast.Name) and recv.id in fn.module.const_nodes:
-                cv = fn.module.const_nodes[recv.id]
-                if isinstance(cv, ast.Call) and _resolves(fn.module, cv.func, "re.compile") and len(t.args) == 1:
-                    pat_call, subj = cv, t.args[0]
-            elif dotted(recv) and fn.module.resolve(dotted(recv)) == "re" and len(t.args) >= 2:
-                pat_call, subj = t, t.args[1]
-            if pat_call is None or not (isinstance(subj, ast.Name) and subj.id == par):
-                return False
-            pat = fn.module.eval_const(pat_call.args[0])
-            flags = _regex_flags(fn.module, pat_call) if pat_call is not t else (_regex_flags(fn.module, ast.Call(func=t.func, args=[t.args[0]] + t.args[2:], keywords=t.keywords)))
-            return isinstance(pat, str) and _plain_scalar_safe(pat, flags)
 
-        def value_ok(v) -> bool:
-            if quoted(v):
+# line breaks of str.splitlines()/the option tokenizer that JSON leaves unescaped with ensure_ascii=False,
+# and the double-quoted escapes that restore them
+_RAW_BREAKS = {"\x85": {"\\N", "\\x85", "\\u0085"}, "\u2028": {"\\L", "\\u2028"}, "\u2029": {"\\P", "\\u2029"}}
+
+
+def _json_quote_verdict(v: ast.expr, mod: Module, par: str | None):
+    """``json.dumps(x[, ensure_ascii=False])[.replace(c, esc)...]`` -> verdict (see sanitiser_verdict); None if another shape."""
+    repl: dict[str, str] = {}
+    while isinstance(v, ast.Call) and isinstance(v.func, ast.Attribute) and v.func.attr == "replace":
+        cs = [a.value for a in v.args if isinstance(a, ast.Constant) and isinstance(a.value, str)]
+        if len(cs) != 2 or len(v.args) != 2 or v.keywords:
+            return None
+        if cs[0] not in _RAW_BREAKS:
+            return None  # rewrites something else inside the quoted text: not modelled
+        repl[cs[0]] = cs[1]
+        v = v.func.value
+    if not (isinstance(v, ast.Call) and dotted(v.func) and mod.resolve(dotted(v.func)) == "json.dumps" and v.args):
+        return None
+    if par is not None and not (isinstance(v.args[0], ast.Name) and v.args[0].id == par):
+        return None
+    ensure_ascii = True
+    for k in v.keywords:
+        if k.arg == "ensure_ascii" and isinstance(k.value, ast.Constant):
+            ensure_ascii = bool(k.value.value)
+        elif k.arg in ("separators", "indent", "sort_keys", "allow_nan", "check_circular"):
+            continue  # no effect on a str argument
+        else:
+            return None
+    if len(v.args) > 1:
+        return None
+    if ensure_ascii:
+        return ("lossy", "json.dumps with ensure_ascii (the default) writes characters outside the BMP as two \\uD83D\\uDE00-style surrogate escapes, which the option tokenizer decodes one by one: an emoji in alt text comes back as two lone surrogates")
+    for ch, escs in _RAW_BREAKS.items():
+        if ch not in repl:
+            return ("lossy", f"U+{ord(ch):04X} is left raw inside the quotes: str.splitlines() and the option tokenizer treat it as a line break, so the value is cut or the rest of it is read as another option")
+        if repl[ch] not in escs:
+            return ("lossy", f"U+{ord(ch):04X} is replaced by {repl[ch]!r}, which the tokenizer does not read back as that character")
+    return ("quoted", "")
+
+
+def _fullmatch_regex(t: ast.expr, fn: FunctionInfo, par: str):
+    """``RE.fullmatch(par)`` / ``re.fullmatch(P, par)`` -> (pattern, flags) or None"""
+    if not isinstance(t, ast.Call) or not isinstance(t.func, ast.Attribute) or t.func.attr != "fullmatch":
+        return None
+    recv = t.func.value
+    pat_call = subj = None
+    if isinstance(recv, ast.Name) and recv.id in fn.module.const_nodes:
+        cv = fn.module.const_nodes[recv.id]
+        if isinstance(cv, ast.Call) and _resolves(fn.module, cv.func, "re.compile") and len(t.args) == 1 and cv.args:
+            pat_call, subj = cv, t.args[0]
+            flags = _regex_flags(fn.module, cv)
+    elif dotted(recv) and fn.module.resolve(dotted(recv)) == "re" and len(t.args) >= 2:
+        pat_call, subj = t, t.args[1]
+        flags = _regex_flags(fn.module, ast.Call(func=t.func, args=[t.args[0]] + t.args[2:], keywords=t.keywords))
+    if pat_call is None or not (isinstance(subj, ast.Name) and subj.id == par):
+        return None
+    try:
+        pat = fn.module.eval_const(pat_call.args[0])
+    except Unsupported:
+        return None
+    return (pat, flags) if isinstance(pat, str) else None
+
+
+def _helper_verdict(fn: FunctionInfo):
+    """A package function of one value: leading None/empty normalisation, then any number of
+    ``if SAFE.fullmatch(p): return p`` and a final JSON-quoted return (or the same as a conditional expression)."""
+    body = [st for st in fn.node.body if not (isinstance(st, ast.Expr) and isinstance(st.value, ast.Constant))]
+    par = fn.params[0]
+
+    def plain_const(c) -> bool:
+        return isinstance(c, ast.Constant) and isinstance(c.value, str) and (c.value == "" or _plain_scalar_safe(re.escape(c.value), 0)[0] is True)
+
+    def normalises(st) -> bool:
+        """``p = p or ""`` / ``if p is None: p = ""`` / ``if not p: p = ""``: None/empty becomes a harmless constant,
+        every other value is kept (and is then subject to the quoting below)."""
+        if isinstance(st, ast.Assign) and len(st.targets) == 1 and isinstance(st.targets[0], ast.Name) and st.targets[0].id == par:
+            v = st.value
+            if isinstance(v, ast.BoolOp) and isinstance(v.op, ast.Or) and len(v.values) == 2 and isinstance(v.values[0], ast.Name) and v.values[0].id == par and plain_const(v.values[1]):
                 return True
-            if isinstance(v, ast.IfExp) and safe_test(v.test) and isinstance(v.body, ast.Name) and v.body.id == par:
-                return value_ok(v.orelse)
+            if isinstance(v, ast.IfExp) and isinstance(v.body, ast.Name) and v.body.id == par and plain_const(v.orelse):
+                t = v.test
+                return (isinstance(t, ast.Name) and t.id == par) or unparse(t) == f"{par} is not None"
             return False
+        if isinstance(st, ast.If) and not st.orelse and len(st.body) == 1 and unparse(st.test) in (f"{par} is None", f"not {par}"):
+            b = st.body[0]
+            return isinstance(b, ast.Assign) and len(b.targets) == 1 and isinstance(b.targets[0], ast.Name) and b.targets[0].id == par and plain_const(b.value)
+        return False
 
-        if not body:
-            return False
-        i = 0
-        while i < len(body) - 1:
-            st = body[i]
-            if isinstance(st, ast.If) and not st.orelse and safe_test(st.test) and len(st.body) == 1 and isinstance(st.body[0], ast.Return) and isinstance(st.body[0].value, ast.Name) and st.body[0].value.id == par:
-                i += 1
-                continue
-            return False
-        last = body[-1]
-        return isinstance(last, ast.Return) and last.value is not None and value_ok(last.value)
+    while body and normalises(body[0]):
+        body = body[1:]
+    if not body or any(isinstance(x, ast.Name) and x.id == par and isinstance(x.ctx, ast.Store) for st in body for x in ast.walk(st)):
+        return None
+
+    def unquoted_under(test):
+        """verdict for ``return par`` guarded by ``test``"""
+        if (isinstance(test, ast.Name) and test.id == par) or unparse(test) in (f"{par} is not None", f"isinstance({par}, str)", f"len({par}) > 0", f"{par} != ''"):
+            return ("lossy", "every non-empty value is returned unquoted")
+        rx = _fullmatch_regex(test, fn, par)
+        if rx is None:
+            return None
+        ok, why = _plain_scalar_safe(*rx)
+        if ok is None:
+            return None
+        return ("quoted", "") if ok else ("lossy", f"values matching {rx[0]!r} are passed on unquoted, but {why}")
+
+    def value(v):
+        if isinstance(v, ast.Name) and v.id == par:
+            return ("lossy", "the value is returned unquoted")
+        if isinstance(v, ast.IfExp) and isinstance(v.body, ast.Name) and v.body.id == par:
+            a = unquoted_under(v.test)
+            b_ = value(v.orelse)
+            if a is None or b_ is None:
+                return None
+            return a if a[0] == "lossy" else b_
+        return _json_quote_verdict(v, fn.module, par)
+
+    verdicts = []
+    for st in body[:-1]:
+        if isinstance(st, ast.If) and not st.orelse and len(st.body) == 1 and isinstance(st.body[0], ast.Return) and isinstance(st.body[0].value, ast.Name) and st.body[0].value.id == par:
+            verdicts.append(unquoted_under(st.test))
+        else:
+            return None
+    last = body[-1]
+    if not (isinstance(last, ast.Return) and last.value is not None):
+        return None
+    verdicts.append(value(last.value))
+    if any(v is None for v in verdicts):
+        return None
+    for v in verdicts:
+        if v[0] == "lossy":
+            return v
+    return ("quoted", "")
 
 
 _PLAIN_INNER = frozenset("abcdefghijklmnopqrstuvwxyzABCDEFGHIJKLMNOPQRSTUVWXYZ0123456789_.%/- ")
@@ -1256,25 +1504,44 @@ _PLAIN_FIRST = _PLAIN_INNER - frozenset("-% ")
 _PLAIN_LAST = _PLAIN_INNER - frozenset(" ")
 
 
-def _plain_scalar_safe(pat: str, flags: int) -> bool:
+def _plain_scalar_safe(pat: str, flags: int) -> tuple[bool | None, str]:
     """Every string the pattern fully matches is a plain scalar that the option tokenizer returns unchanged:
     characters from [A-Za-z0-9_.%/-] and inner spaces, not starting with '-', '%' or space, not ending in space
     (alphabet confirmed by an exhaustive manual probe up to length 5; the empty string is equivalent to '')."""
     if flags & re.VERBOSE:
-        return False
+        return None, "verbose pattern"
     try:
         tree = sre_parse.parse(pat, flags)
     except Exception:
-        return False
+        return None, "pattern does not parse"
 
     def chars(op, av):
         if op is _C.LITERAL:
             return {chr(av)}
+        if op in (_C.ANY, _C.NOT_LITERAL):
+            return {"#", "\n"}  # admits (at least) these unsafe characters
         if op is _C.IN:
+            out: set[str] = set()
             for o, a in av:
-                if o is _C.NEGATE or o is _C.CATEGORY:
+                if o is _C.NEGATE:
+                    return {"#", "\n"}
+                if o is _C.CATEGORY:
+                    nm = str(a)
+                    if nm in ("CATEGORY_WORD", "CATEGORY_DIGIT"):
+                        out |= {"a", "0", "_"} if nm == "CATEGORY_WORD" else {"0"}
+                    elif nm == "CATEGORY_SPACE":
+                        out |= {" ", "\n"}
+                    else:
+                        out |= {"#", "\n"}
+                elif o is _C.LITERAL:
+                    out.add(chr(a))
+                elif o is _C.RANGE:
+                    if a[1] > 127:
+                        return None
+                    out |= {chr(c) for c in range(a[0], a[1] + 1)}
+                else:
                     return None
-            return _charset(av) if all(o in (_C.LITERAL, _C.RANGE) and (a if o is _C.LITERAL else a[1]) < 128 for o, a in av) else None
+            return out
         return None
 
     def walk(items):
@@ -1282,7 +1549,7 @@ def _plain_scalar_safe(pat: str, flags: int) -> bool:
         nullable, first, last, allc = True, set(), set(), set()
         seq = []
         for op, av in items:
-            if op in (_C.LITERAL, _C.IN):
+            if op in (_C.LITERAL, _C.IN, _C.ANY, _C.NOT_LITERAL):
                 c = chars(op, av)
                 if c is None:
                     return None
@@ -1321,23 +1588,29 @@ def _plain_scalar_safe(pat: str, flags: int) -> bool:
 
     r_ = walk(list(tree))
     if r_ is None:
-        return False
+        return None, "pattern outside the understood subset"
     _, first, last, allc = r_
-    return allc <= _PLAIN_INNER and first <= _PLAIN_FIRST and last <= _PLAIN_LAST
+    if not allc <= _PLAIN_INNER:
+        return False, f"it admits {sorted(allc - _PLAIN_INNER)!r}, which the option syntax does not read back literally (comment, quote, indicator or line-break characters)"
+    if not first <= _PLAIN_FIRST:
+        return False, f"it admits a leading {sorted(first - _PLAIN_FIRST)!r}, which is not kept (stripped or read as an indicator)"
+    if not last <= _PLAIN_LAST:
+        return False, "it admits a trailing space, which a plain scalar drops"
+    return True, ""
 
 
 def _sink_values(corpus: Corpus):
-    """[(call, directive name, V of the content argument)]"""
+    """[(function, call, directive name, V of the content argument)]"""
 
     def build():
         cx = _ctx(corpus)
         out = []
-        for call in cx.sinks():
-            t = Taint(cx)
+        for fn, call in cx.sinks():
+            t = Taint(cx, fn)
             content = arg_or_kw(call, cx.rd_idx["content"], "content")
             if content is None:
                 raise Unsupported(f"run_directive call without content argument: {short(call, 60)}")
-            out.append((call, cx.sink_name(call), t.ev(content, {})))
+            out.append((fn, call, cx.sink_name(call), t.ev(content, {})))
         return out
 
     return corpus.cache("c17-sinks", build)
@@ -1378,11 +1651,11 @@ def r3_whitelist_subset(corpus: Corpus, rep: Report, tier: str):
     rep.rule("C17.R3", "attribute whitelists feeding a directive's option block ⊆ that docutils directive's option_spec")
     cx = _ctx(corpus)
     m = cx.mod
-    for call, name, v in _sink_values(corpus):
+    for sfn, call, name, v in _sink_values(corpus):
         rep.saw_call(m.site(call))
         spec, where = _directive_option_spec(corpus, rep, name)
         if not v.wl:
-            rep.ok("C17.R3", f"{cx.fi.fq}|run_directive({name!r})|no whitelist", m.site(call), "no attribute-name whitelist feeds this option block (attribute names, if any, are judged by R4)")
+            rep.ok("C17.R3", f"{sfn.fq}|run_directive({name!r})|no whitelist", m.site(call), "no attribute-name whitelist feeds this option block (attribute names, if any, are judged by R4)")
             continue
         for wname in sorted(v.wl):
             node = m.const_nodes.get(wname)
@@ -1406,9 +1679,9 @@ def r4_quoting(corpus: Corpus, rep: Report, tier: str):
     rep.rule("C17.R4", "HTML attribute strings reach the option block of run_directive's content only through a quoting sanitiser (or a whitelist, for names)")
     cx = _ctx(corpus)
     m = cx.mod
-    for call, name, v in _sink_values(corpus):
+    for sfn, call, name, v in _sink_values(corpus):
         site = m.site(call)
-        base = f"{cx.fi.fq}|run_directive({name!r}).content"
+        base = f"{sfn.fq}|run_directive({name!r}).content"
         if v.kind != RAW:
             rep.ok("C17.R4", base, site, "no attribute string" if v.kind == CLEAN else "attribute values pass a quoting sanitiser")
             continue
@@ -1419,14 +1692,16 @@ def r4_quoting(corpus: Corpus, rep: Report, tier: str):
                 if isinstance(a, (ast.JoinedStr, ast.BinOp)):
                     holder = a
                     break
+            what, _, detail = what.partition("|")
             k = f"{base}|{what}|{short(node, 40)} in {short(holder, 60)}"
-            rep.violation(
-                "C17.R4",
-                k,
-                m.site(node),
-                f"the HTML {what} `{short(node, 40)}` is interpolated unquoted into the option block of the {name!r} directive (`{short(holder, 60)}`): "
-                "values containing '#', quotes, a leading '|' '>' '[' '{', ': ' or a newline are cut, rejected, or inject further options instead of being carried over unchanged",
-            )
+            if detail:
+                msg = f"the HTML attribute value reaches the option block of the {name!r} directive through `{short(node, 40)}`, which does not carry every value over unchanged: {detail}"
+            else:
+                msg = (
+                    f"the HTML {what} `{short(node, 40)}` is interpolated unquoted into the option block of the {name!r} directive (`{short(holder, 60)}`): "
+                    "values containing '#', quotes, a leading '|' '>' '[' '{', ': ' or a newline are cut, rejected, or inject further options instead of being carried over unchanged"
+                )
+            rep.violation("C17.R4", k, m.site(node), msg)
     rep.expect_min("C17.R4", 2, "the image and admonition conversions")
 
 
@@ -1549,10 +1824,10 @@ def mutants(corpus: Corpus):
 
     # ---- R4 ----
     sinks = cx.sinks()
-    for call in sinks:
+    for sfn, call in sinks:
         name = cx.sink_name(call)
         content = arg_or_kw(call, cx.rd_idx["content"], "content")
-        if name == "image" and content is not None:
+        if name == "image" and content is not None and sfn is fi:
             add("c17-unquoted-new-option", "C17.R4", splice(src, content, ast.get_source_segment(src, content) + ' + f"\\n:target: {child.attrs[\'href\']}"'), "href")
     comps = sorted((n for n in fi.local_nodes() if isinstance(n, ast.GeneratorExp) and n.generators[0].ifs and any(isinstance(x, ast.Name) and x.id.startswith("OPTION_KEYS") for x in ast.walk(n.generators[0].ifs[0]))), key=lambda n: n.lineno)
     if comps:
@@ -1569,5 +1844,56 @@ def mutants(corpus: Corpus):
         if reverted:
             break
     if not reverted:
-        out.append(("c17-f18-quoting-reverted", "F18 is not repaired on this tree: attribute values are still interpolated unquoted (reported as VIOLATION)"))
+        out.append(("c17-f18-quoting-reverted", "attribute values are not passed through a recognised quoting call on this tree"))
+    # the sanitiser itself (landed with fd1db9d): edits after which some values no longer survive
+    qfn = None
+    for js in (n for n in fi.local_nodes() if isinstance(n, ast.JoinedStr)):
+        for fv in js.values:
+            if isinstance(fv, ast.FormattedValue) and isinstance(fv.value, ast.Call) and dotted(fv.value.func):
+                cand = corpus.find_function(m.resolve(dotted(fv.value.func)))
+                if cand is not None and Taint(cx).is_quoting_call(fv.value):
+                    qfn = cand
+    if qfn is not None:
+        qm = qfn.module
+        for t in (n for n in qfn.local_nodes() if isinstance(n, ast.Call)):
+            rx = _fullmatch_regex(t, qfn, qfn.params[0])
+            if rx is not None and isinstance(t.func.value, ast.Name):
+                pat_node = qm.const_nodes[t.func.value.id].args[0]
+                add("c17-plain-pattern-admits-hash", "C17.R4", splice(qm.src, pat_node, "r" + repr(rx[0].replace("_.%/-]*", "_.%/#-]*", 1))), "lossy quoting", rel_=qm.rel, note="'a #b' is passed on unquoted and cut at the comment")
+                add("c17-plain-pattern-any-nonspace", "C17.R4", splice(qm.src, pat_node, 'r"\\S+"'), "lossy quoting", rel_=qm.rel)
+                break
+        reps = sorted((n for n in qfn.local_nodes() if isinstance(n, ast.Call) and isinstance(n.func, ast.Attribute) and n.func.attr == "replace"), key=lambda n: (n.end_lineno, n.end_col_offset))
+        if reps:
+            outer = reps[-1]
+            add("c17-line-separator-escape-dropped", "C17.R4", splice(qm.src, outer, ast.get_source_segment(qm.src, outer.func.value)), "lossy quoting", rel_=qm.rel, note="U+2029 stays raw inside the quotes")
+        dumps = find_node(qfn, lambda n: isinstance(n, ast.Call) and _resolves(qm, n.func, "json.dumps"))
+        if dumps is not None and kwarg(dumps, "ensure_ascii") is not None:
+            add("c17-ensure-ascii-default", "C17.R4", splice(qm.src, dumps, f"{unparse(dumps.func)}({ast.get_source_segment(qm.src, dumps.args[0])})"), "lossy quoting", rel_=qm.rel, note="non-BMP characters come back as surrogate pairs")
+    else:
+        out.append(("c17-sanitiser-mutants", "no quoting helper function on this tree"))
+    # ---- R1: class tests are word tests; parser state per fragment ----
+    if gate is not None:
+        ct = find_node(fi, lambda n: isinstance(n, ast.Attribute) and n.attr == "classes" and gate.lineno <= n.lineno <= gate.end_lineno)
+        if ct is not None:
+            add("c17-gate-class-substring", "C17.R1", splice(src, ct, ast.get_source_segment(src, ct.value) + '["class"]'), "class test", canary=True, note="seed class: substring test on the raw class attribute")
+        later = sorted((n for n in fi.local_nodes() if isinstance(n, ast.Attribute) and n.attr == "classes" and n.lineno > gate.end_lineno), key=lambda n: n.lineno)
+        if later:
+            add("c17-title-class-substring", "C17.R1", splice(src, later[0], ast.get_source_segment(src, later[0].value) + '.get("class", "")'), "class test")
+    acls = corpus.cls("parsers.parse_html:Attribute")
+    pc = acls.methods.get("classes")
+    if pc is not None:
+        sp = find_node(pc, lambda n: isinstance(n, ast.Call) and isinstance(n.func, ast.Attribute) and n.func.attr == "split")
+        if sp is not None:
+            add("c17-classes-property-unsplit", "C17.R1", splice(pc.module.src, sp, ast.get_source_segment(pc.module.src, sp.func.value)), "class test", rel_=pc.module.rel)
+    tk = corpus.find_function(m.resolve("tokenize_html"))
+    if tk is not None:
+        asg = find_stmt(tk, lambda s_: isinstance(s_, ast.Assign) and isinstance(s_.value, ast.Call) and corpus.find_class(tk.module.resolve(dotted(s_.value.func) or "")) is not None)
+        if asg is not None and isinstance(asg.targets[0], ast.Name):
+            nm = asg.targets[0].id
+            ctor = ast.get_source_segment(tk.module.src, asg.value)
+            ind = " " * asg.col_offset
+            add("c17-tokenizer-cached-in-dict", "C17.R1", splice(tk.module.src, asg, f"key = ({', '.join(tk.params[1:])})\n{ind}if key not in _TOKENIZERS:\n{ind}    _TOKENIZERS[key] = {ctor}\n{ind}{nm} = _TOKENIZERS[key]").replace(f"def {tk.name}(", f"_TOKENIZERS: dict = {{}}\n\n\ndef {tk.name}(", 1), "parser state", rel_=tk.module.rel, note="seed class: parser object re-used between fragments")
+            add("c17-tokenizer-lazily-created-global", "C17.R1", splice(tk.module.src, asg, f"global _PARSER\n{ind}if _PARSER is None:\n{ind}    _PARSER = {ctor}\n{ind}{nm} = _PARSER").replace(f"def {tk.name}(", f"_PARSER = None\n\n\ndef {tk.name}(", 1), "parser state", rel_=tk.module.rel)
+        else:
+            out.append(("c17-tokenizer-cache-mutants", "tokenize_html does not assign a freshly constructed parser to a local"))
     return out
